@@ -127,6 +127,11 @@ def observe(cfg, r, sts, val):
         return {"st": st, "ext": ext, "vals": [], "ok": True, "bytes": [], "exact5": False}
     if val is None or val is False:
         return {"st": st, "ext": ext, "vals": [], "ok": False, "bytes": [], "exact5": False}
+    if r["svc"] in ("write", "writef", "sas") and isinstance(val, (list, tuple)):
+        # validating mode reports a write by the values it carried (otherwise True / None); success is told by the status then
+        want = [sim.dec_elem(r["typ"], v) for v in r["vals"]]
+        if list(val) == want:
+            return {"st": st, "ext": ext, "vals": [], "ok": st == 0, "bytes": [], "exact5": False}
     if r["svc"] == "gas":
         return {"st": st, "ext": ext, "vals": [], "ok": True, "bytes": [int(v) for v in val], "exact5": False}      # the attribute's octets
     t = tagtype(cfg, r)
@@ -138,7 +143,10 @@ def run_client(job):
     fault: None | {"cut_s2c": k} | {"cut_c2s": k} | {"silence": True}"""
     from cpppo.server.enip import client
     from . import live
-    cfg, mem0, ops, (depth, multiple, fragment), pattern, fault = job
+    cfg, mem0, ops, setting, pattern, fault = job
+    depth, multiple, fragment = setting[:3]
+    validating = len(setting) > 3 and setting[3]      # operate(..., validating=True): results must be the same
+    reuse = len(setting) > 4 and setting[4]            # the same list of operation dicts is issued a second time
     srv = server(cfg)
     wait_idle()
     srv.dev.set_mem(mem0)
@@ -170,9 +178,10 @@ def run_client(job):
     try:
         conn = make_connector(addr[0], addr[1], 0.6 if fault else 5.0, sends)
         with conn:
-            for idx, dsc, op, rpy, sts, val in conn.operate(operations, depth=depth, multiple=multiple, fragment=fragment,
-                                                           timeout=0.6 if fault else 5.0):
-                obs.append(observe(cfg, ops[len(obs)]["r"], sts, val))
+            for rnd in range(2 if reuse else 1):
+                for idx, dsc, op, rpy, sts, val in conn.operate(operations, depth=depth, multiple=multiple, fragment=fragment,
+                                                               timeout=0.6 if fault else 5.0, **({"validating": True} if validating else {})):
+                    obs.append(observe(cfg, ops[len(obs) % len(ops)]["r"], sts, val))
     except Exception as exc:
         raised = type(exc).__name__
     finally:
@@ -183,13 +192,14 @@ def run_client(job):
     k = 0
     for s in sends:
         for _ in range(s["members"]):
-            if k < len(operations) and s["route_path"] != operations[k]["route_path"]:
+            if s["route_path"] != operations[k % len(operations)]["route_path"]:
                 mixed = True
             k += 1
     time.sleep(0)
-    line = {"cfg": cfg, "mem0": mem0, "ops": [o["r"] for o in ops], "frag": bool(fragment), "obs": obs, "fault": bool(fault),
-            "delivered": len(ops), "raised": bool(raised), "mixed": mixed, "final": srv.dev.get_mem(),
-            "setting": [depth, multiple, fragment], "pattern": pattern, "exc": raised, "faultspec": fault, "sends": len(sends)}
+    allops = [o["r"] for o in ops] * (2 if reuse else 1)
+    line = {"cfg": cfg, "mem0": mem0, "ops": allops, "frag": bool(fragment), "obs": obs, "fault": bool(fault),
+            "delivered": len(allops), "raised": bool(raised), "mixed": mixed, "final": srv.dev.get_mem(),
+            "setting": list(setting), "pattern": pattern, "exc": raised, "faultspec": fault, "sends": len(sends)}
     if relay:
         line["s2c"] = list(relay.s2c)
         line["c2s_len"] = len(relay.c2s)
